@@ -624,7 +624,13 @@ class Process:
         while proc is not None and proc.pid not in seen:
             seen.add(proc.pid)
             parents.append(proc)
-            proc = proc.parent()
+            try:
+                proc = proc.parent()
+            except NoSuchProcess:
+                # This ancestor vanished (or its PID was reused) while
+                # we were walking up: its own parent link is lost and
+                # the chain ends here.
+                break
         return parents
 
     def is_running(self):
